@@ -60,7 +60,7 @@ def gen_history(rnd, sid, nedges, nsteps, feat=None, faults=0.0, wf_reads=True, 
         r = rnd.random()
         ne = [e for e in g.edges if not e.phony]
         if r < 0.35:
-            sname = rnd.choice(sorted(h.sources))
+            sname = rnd.choice(sorted(x for x in h.sources if not x.startswith('dd')))
             h.edit(sname, 'common' if rnd.random() < 0.15 else '%s.%d' % (sname, rnd.randrange(1000000)))
         elif r < 0.45:
             sname = rnd.choice(sorted(h.sources)); h.add(Step('touch', 'step touch %s' % hx(sname), path=sname))
@@ -88,6 +88,29 @@ def gen_history(rnd, sid, nedges, nsteps, feat=None, faults=0.0, wf_reads=True, 
                 src = rnd.choice([x for x in e.exp if x in h.sources])
                 h.add(Step('sethidden', 'step sethidden %s %s' % (hx(e.out0), ' '.join(hx(x) for x in e.hidden)), edge=e.idx))
                 h.edit(src, '%s.%d' % (src, rnd.randrange(1000000)))
+        elif r < 0.91 and g.dd_info:
+            # change what a dyndep file says (valid for the graph): add/remove a discovered input, flip restat
+            dd = rnd.choice(sorted(g.dd_info)); info = g.dd_info[dd]
+            out0 = rnd.choice(sorted(info)); io, ii, rs = info[out0]
+            e = [x for x in g.edges if x.out0 == out0][0]
+            pos = g.edges.index(e)
+            earlier = [x for x in list(g.sources) + [o for pe in g.edges[:pos] for o in pe.outs] if x not in e.manifest_ins() and x != dd and not x.startswith('dd')]
+            if ii and rnd.random() < 0.4: ii = ii[:-1]
+            elif earlier: ii = ii + [x for x in [rnd.choice(earlier)] if x not in ii]
+            if rnd.random() < 0.2: rs = not rs
+            e.hidden = [x for x in e.hidden if x not in info[out0][1]] + ii
+            info[out0] = (io, ii, rs)
+            text = engine.dd_text(info)
+            h.add(Step('sethidden', 'step sethidden %s %s' % (hx(e.out0), ' '.join(hx(x) for x in e.hidden)), edge=e.idx))
+            if dd in g.ddtext:
+                g.ddtext[dd] = text
+                h.add(Step('setdd', 'step setdd %s %s' % (hx(dd), hx(text))))
+                pe = [x for x in g.edges if dd in x.outs][0]
+                srcs = [x for x in pe.exp if x in h.sources]
+                if srcs: h.edit(rnd.choice(srcs), 'ddsrc.%d' % rnd.randrange(1000000))
+                else: h.add(Step('rm', 'step rm %s' % hx(dd), path=dd))
+            else:
+                h.edit(dd, text)
         elif r < 0.93:
             h.add(Step('droplog', 'step droplog')); h.tags.add('droplog')
         elif r < 0.96:
@@ -107,9 +130,31 @@ def gen_history(rnd, sid, nedges, nsteps, feat=None, faults=0.0, wf_reads=True, 
 def run_hists(hists, flavor='plain', timeout=900, chunk=None):
     """run scenarios through the real engine; returns {sid: [Build]}; raises on harness crash"""
     impl = os.path.join(vlib.build_impl(flavor), 'impl_run')
-    text = ''.join(h.text() for h in hists)
-    rc, out, err = vlib.run_lines(impl, 'engine', text.split('\n'), timeout=timeout)
-    return rc, engine.parse_trace(out), err, out
+    import concurrent.futures
+    chunk = chunk or 250
+    groups = [hists[i:i + chunk] for i in range(0, len(hists), chunk)]
+    def work(group):
+        outs = []; crashes = []
+        todo = list(group)
+        while todo:
+            text = ''.join(h.text() for h in todo)
+            rc, out, err = vlib.run_lines(impl, 'engine', text.split('\n'), timeout=timeout)
+            outs += out
+            if rc == 0: break
+            # the engine died inside a scenario: that is an observation; continue after the offender
+            sids = [l.split()[1] for l in out if l.startswith('scenario ')]
+            sid = sids[-1] if sids else todo[0].sid
+            k = [i for i, h in enumerate(todo) if h.sid == sid]
+            k = k[0] if k else 0
+            crashes.append((todo[k], rc, err[-600:]))
+            outs.append('end ' + sid)
+            todo = todo[k + 1:]
+        return outs, crashes
+    allout = []; crashes = []
+    with concurrent.futures.ThreadPoolExecutor(max_workers=8) as ex:
+        for o, c in ex.map(work, groups): allout += o; crashes += c
+    run_hists.crashes = crashes
+    return 0, engine.parse_trace(allout), '', allout
 
 def pair(h, builds):
     """[(Step, Build, pre)] for the build steps of a history; pre = (log, deps) meaning right before
